@@ -57,6 +57,10 @@ def ix2s(model):
             def pred(e, t):
                 if t and isinstance(e, ast.Name) and e.id == v:
                     return True
+                if 'None' in why and isinstance(e, ast.Compare) and isinstance(e.left, ast.Name) and e.left.id == v \
+                        and T.is_const(e.comparators[0], None) and isinstance(e.ops[0], (ast.Is, ast.IsNot, ast.Eq, ast.NotEq)) \
+                        and isinstance(e.ops[0], (ast.IsNot, ast.NotEq)) == t:
+                    return True
                 if t and isinstance(e, ast.Call) and any(isinstance(a, ast.Name) and a.id == v for a in e.args):
                     # a predicate helper whose result implies that its argument is non-empty:
                     #    def ends_with_punct(s): return s and s[-1] in ...
